@@ -1,0 +1,22 @@
+// Copyright 2026 The Mellium Contributors.
+// Use of this source code is governed by the BSD 2-clause
+// license that can be found in the LICENSE file.
+
+//go:build verif
+
+// This file contains no code. It carries machine-checked contracts (lines
+// starting with "//@") read by the verification tooling.
+
+package s2s
+
+// C01/C04: the bidi feature is negotiable only on a secured, not yet
+// authenticated stream, is voluntary, never asks for a restart, reports every
+// write error and adds no state bit.
+//@ func Bidi
+//@   ensures[C01] result.Necessary == xmpp.Secure && result.Prohibited == xmpp.Authn && result.Negotiate != nil && result.Name.Space == NSBidiFeature && result.Name.Local == "bidi"
+//@ func Bidi$1
+//@   noswallow[C04]
+//@   ensures[C01] !result0
+//@ func Bidi$3
+//@   noswallow[C04]
+//@   ensures[C01,C04] result0 == 0 && result1 == nil
